@@ -4,7 +4,7 @@ PROPS = {}
 PROPS["C17"] = dict(
     driver="oracle",
     props_file="Props/C17.v",
-    coq_targets=["Oracle/Check.vo", "Oracle/Proofs.vo"],
+    coq_targets=["Oracle/Check.vo", "Oracle/Proofs.vo", "Oracle/Sound.vo"],
     check_module="Oracle.Check",
     check_fn="check_case",
     coq_shard=40,
